@@ -25,6 +25,7 @@ type numWalk struct {
 	action func(p *packages.Package, call *ast.CallExpr) (arg ast.Expr, ok bool)
 	out    strings.Builder
 	depth  int
+	loops  int // traversal loops the walk is inside of
 }
 
 type numVal struct {
@@ -171,6 +172,23 @@ func terminates(b *ast.BlockStmt) bool {
 	return false
 }
 
+// successReturn: the block ends in `return` / `return nil` (all results nil).
+func successReturn(b *ast.BlockStmt) bool {
+	if b == nil || len(b.List) == 0 {
+		return false
+	}
+	r, ok := b.List[len(b.List)-1].(*ast.ReturnStmt)
+	if !ok {
+		return false
+	}
+	for _, e := range r.Results {
+		if id, ok := unparen(e).(*ast.Ident); !ok || id.Name != "nil" {
+			return false
+		}
+	}
+	return true
+}
+
 func (w *numWalk) walkStmts(p *packages.Package, env *numEnv, list []ast.Stmt) {
 	info := p.TypesInfo
 	apply := func(e *numEnv, m map[types.Object][]string) {
@@ -204,7 +222,9 @@ func (w *numWalk) walkStmts(p *packages.Package, env *numEnv, list []ast.Stmt) {
 				inner.vals[info.ObjectOf(id)] = numVal{origin: field}
 			}
 			w.out.WriteString(field + "{")
+			w.loops++
 			w.walkStmts(p, inner, st.Body.List)
+			w.loops--
 			w.out.WriteString("}")
 		case *ast.AssignStmt:
 			// closures
@@ -248,6 +268,13 @@ func (w *numWalk) walkStmts(p *packages.Package, env *numEnv, list []ast.Stmt) {
 			}
 			pos, neg := w.condFilters(info, env, st.Cond)
 			w.walkCalls(p, env, st.Cond)
+			// a success return of the routine itself, outside every traversal loop, under a condition
+			// that says nothing about a traversal value: whatever follows is skipped for some
+			// functions as a whole (`if len(f.Blocks) == 0 { return nil }` skips the parameters of
+			// declarations) — part of the order the two sides must agree on
+			if w.depth == 0 && w.loops == 0 && st.Else == nil && len(pos) == 0 && len(neg) == 0 && successReturn(st.Body) && st != list[len(list)-1] {
+				w.out.WriteString("exit?")
+			}
 			then := env.clone()
 			apply(then, pos)
 			w.walkStmts(p, then, st.Body.List)
